@@ -55,6 +55,12 @@ def gen(ck: Check):
         msgs = [(rng.choice([1, 7, 25, 123, 255, 256, 65535]), bytes(rng.randrange(256) for _ in range(rng.choice([0, 1, 3, 17, 200]))))
                 for _ in range(k)]
         cases.append((name, expected, msgs))
+    # the name rule on its own: "accepted iff no expected name is configured or the names are EQUAL" - near misses in both
+    # directions (the announced name extends / is a prefix of / differs in case or whitespace from the expected one)
+    for announced, exp in [(b"kitchen-2", "kitchen"), (b"kitchen2", "kitchen"), (b"kitchen", "kitchen-2"), (b"Kitchen", "kitchen"),
+                           (b"kitchen ", "kitchen"), (b" kitchen", "kitchen"), (b"ab", "a"), (b"a", "ab"), (b"kitchen", "kitchen"),
+                           (b"nehctik", "kitchen"), ("küche2".encode(), "küche"), (b"kitchen.local", "kitchen"), (b"", "kitchen")]:
+        cases.append((announced, exp, [(7, b"")] if len(cases) % 2 else []))
     # frame lengths around every byte boundary of the 16-bit length field (frame = payload + 4 bytes of inner header +
     # 16 bytes of tag): 255/256, 32767/32768 (sign bit), 65535 (the largest the field can carry)
     big = [235, 236, 237, 32747, 32748, 40000, 65515] if thorough else [236, 32748, 65515]
